@@ -325,7 +325,10 @@ def unbinned_fit(
     """
     from kafe2.fit.unbinned import UnbinnedFit
 
-    _fit = UnbinnedFit(data, model_function)
+    if model_function is None:
+        _fit = UnbinnedFit(data)
+    else:
+        _fit = UnbinnedFit(data, model_function)
 
     return _fit_wrapper_generic(_fit, p0, dp0, limits, fixed, constraints, report, profile, save)
 
